@@ -21,7 +21,7 @@ RULE = (
     "and incomparable, or a range query of length >= 2 whose minimum is not at either end."
 )
 ASSUMPTIONS = ["ete3 tree container (children order, parent pointers)", "parent-chain definitions in refmodel/trees.py"]
-BUDGET = {"quick": 200, "thorough": 1800}
+BUDGET = {"quick": 600, "thorough": 1800}
 
 
 def plan(tier, seed):
